@@ -10,7 +10,7 @@
    This file contains only statements closed by `exact`, their assumptions and non-vacuity examples.
    Generated once by tools/genprops.py from the proved lemmas (statements restated verbatim). *)
 From Coq Require Import List NArith ZArith Bool Lia Sorting.Permutation.
-From Viv Require Import Base.Assoc Base.Tree Model.Paths Model.Steps Model.Struct Model.StructC Proofs.Struct_proofs Proofs.Consistent_proofs Proofs.MoveP_proofs Proofs.Consistent2_proofs Model.Fronts Proofs.Fronts_proofs Proofs.Fronts_engine_proofs Proofs.Coherent_proofs Proofs.Sched_entry_proofs.
+From Viv Require Import Base.Assoc Base.Tree Model.Paths Model.Steps Model.Struct Model.StructC Proofs.Struct_proofs Proofs.Consistent_proofs Proofs.MoveP_proofs Proofs.Consistent2_proofs Model.Fronts Proofs.Fronts_proofs Proofs.Fronts_refine Proofs.Fronts_engine_proofs Proofs.Coherent_proofs Proofs.Sched_entry_proofs.
 Import ListNotations.
 
 (* DELETIONS FIRST: after an update a registered process lies under a path the update deleted only if the same update (re-)registered it there - what was deleted (or moved away under its old path) is never polled again, what the update put there is *)
@@ -1269,6 +1269,21 @@ Theorem C10_reports_coherent_needs_unique :
            ~ In ([3%N; 2%N; 1%N; 5%N; 9%N], 7%N) (proc_paths t') /\ ~ consistent_procs t' b'.
 Proof. exact @reports_coherent_needs_unique. Qed.
 Print Assumptions C10_reports_coherent_needs_unique.
+
+(* REFINEMENT: read through entry_of (the entry of a process object), Engine.apply_update acts on the path-keyed Engine.front exactly like keep_live of Model/Sched.v on its pid-keyed fronts: an object registered afterwards keeps its entry, every other object has none *)
+Theorem C10_front_refines_keep_live :
+  forall (T : Type) (b b' : book) (rp : reports) (fr : fronts T),
+         wf_front T (b_procs b) fr ->
+         book_apply b rp = Ok b' ->
+         NoDup (map snd (b_procs b')) ->
+         functional_reports rp ->
+         no_rotation b rp ->
+         steps_apart b rp ->
+         forall o : N,
+         entry_of T (b_procs b') (front_apply T b fr rp) o =
+         (if existsb (N.eqb o) (map snd (b_procs b')) then entry_of T (b_procs b) fr o else None).
+Proof. exact @front_refines_keep_live. Qed.
+Print Assumptions C10_front_refines_keep_live.
 
 
 (* ---- non-vacuity on the concrete kit (Model/StructC.v) ---- *)
